@@ -289,6 +289,44 @@ def check(ctx: Ctx) -> None:
                     ob.violation(m, x, "the serializer's sink is re-bound while saving: bytes can be re-ordered or replayed")
         ob.require(n >= 1, f"{n} serializer table accesses (floor 1: the type-keyed dispatch table)")
 
+    # ---- C01.j every int the 4-byte branch accepts is written (the helper's own range guard must not reject any of them)
+    with ctx.obligation("C01.j", "accepted-int-total") as ob:
+        from ..terms import evaluator as _ev
+        fsi = repo.merged(f"{GB}._Serializer._save_integral", [f"{GB}._Serializer._write_int4"])
+        evi = _ev(repo, fsi)
+        short_p = fsi.params()[2] if len(fsi.params()) > 2 else "short_op"
+        n4 = 0
+        for (pth, st_) in evi.run(limit=4000):
+            wrote_short = any(e.kind == "call" and e.callee == "self._write" and e.args[:1] == (("sym", short_p),) for e in st_.events)
+            if not wrote_short:
+                continue
+            n4 += 1
+            end_ = evi.cfg.nodes[pth[-1][0]]
+            ob.site(fsi, fsi.node, "4-byte branch: the value is packed, never rejected", end=end_.kind)
+            if end_.kind == "raise":
+                rs = [e for e in st_.events if e.kind == "raise"]
+                ob.violation(fsi, rs[-1].node if rs else fsi.node, "an int inside the 4-byte range chosen by _save_integral is rejected by the range guard of the int4 writer: "
+                                                                  "a supported value (the boundary) raises DumpError instead of round-tripping", construct="4-byte branch can raise")
+        ob.require(n4 >= 1, "_save_integral: 4-byte branch not found")
+
+    # ---- C01.k codecs are strict: an error handler changes which strings are accepted / what bytes are written
+    with ctx.obligation("C01.k", "strict-codecs", nontrivial=False) as ob:
+        ncodec = 0
+        for cname in ("_Serializer", "Unserializer"):
+            for m0 in repo.cls(cname).methods.values():
+                m = repo.flat(m0)
+                for c in repo.calls_in(m):
+                    if callee_attr(c) in ("encode", "decode") and isinstance(c.func, ast.Attribute):
+                        ncodec += 1
+                        errs = [k for k in c.keywords if k.arg == "errors"] or c.args[1:2]
+                        ok = not errs or (isinstance(errs[0].value if isinstance(errs[0], ast.keyword) else errs[0], ast.Constant)
+                                          and (errs[0].value if isinstance(errs[0], ast.keyword) else errs[0]).value == "strict")
+                        ob.site(m, c, "codec call without a lenient error handler", ok=ok)
+                        if not ok:
+                            ob.violation(m, c, f"`{norm(c)[:60]}` passes an error handler: strings that must be rejected with DumpError / LoadError are let through "
+                                               "(or altered) and the peer's decoder, which is strict, fails on them")
+        ob.require(ncodec >= 4, f"{ncodec} encode/decode calls in the serializer (floor 4)")
+
     # ---- C01.h dump-before-send
     with ctx.obligation("C01.h", "dump-before-send") as ob:
         nsend = 0
